@@ -238,6 +238,9 @@ _t('C18', 'Theorems: for EVERY permutation the shuffle may return, a feasible re
 
 # the tokenizer's tables are re-read from the source and their agreement with the model re-proved on every run (lib/vlib/srctab.py)
 PROPS['C08']['srctab'] = True
+# the loop nests of two generators are re-read from the source and proved equal to the model for all sizes (lib/vlib/srcloops.py)
+PROPS['C15']['srcloops'] = 'queens'
+PROPS['C17']['srcloops'] = 'sudoku'
 PROPS['C01']['srctab'] = True
 
 # the state lint runs with every property whose model is the state-free tree model of the library
